@@ -18,6 +18,7 @@ BODIES = {
     "sleeping": "channel.send(1)\nimport time\ntime.sleep(600)",
     "busy": "channel.send(1)\nwhile True: pass",
     "swallows-interrupt": "channel.send(1)\nimport time\nwhile True:\n    try:\n        time.sleep(0.1)\n    except KeyboardInterrupt:\n        pass",
+    "streaming-thread": "import threading, time\ndef pump():\n    i = 0\n    while 1:\n        channel.send(i); i += 1\nt = threading.Thread(target=pump, daemon=True); t.start(); time.sleep(600)",
     "daemon-thread": "import threading, time\nt = threading.Thread(target=time.sleep, args=(600,), daemon=True); t.start(); channel.send(1)",
 }
 def alive(pid):
@@ -27,7 +28,7 @@ def alive(pid):
             return f.read().split()[2] != "Z"
     except OSError:
         return False
-cases = [("idle", "thread", "kill"), ("blocked-in-receive", "thread", "kill"), ("sleeping", "thread", "kill"), ("busy", "thread", "kill"), ("daemon-thread", "thread", "kill"),
+cases = [("idle", "thread", "kill"), ("blocked-in-receive", "thread", "kill"), ("sleeping", "thread", "kill"), ("busy", "thread", "kill"), ("daemon-thread", "thread", "kill"), ("streaming-thread", "thread", "kill"),
          ("blocked-in-receive", "main_thread_only", "kill"), ("sleeping", "main_thread_only", "term")]
 if MODE == "thorough":
     cases += [("swallows-interrupt", "thread", "kill"), ("swallows-interrupt", "main_thread_only", "kill")]
